@@ -109,7 +109,19 @@ def states():
         srv.start("i1", 2); srv.begin("i1", "base", 3); srv.step("i1", 0, "base")
         srv.start("i2", 50); srv.tick(5); srv.req("GET", "/full-metrics", cred=None)   # i1 swept, its file stays
         return srv.uid("i1")
-    return [("no-instances", none, False), ("instance-without-session", no_session, False), ("live-session", live, True),
+    def served_once(srv):
+        # a server on which every route has already answered an authorised client once (before anybody else asked)
+        u = live(srv)
+        for r in srv.app.url_map.iter_rules():
+            if r.rule.startswith("/static") or r.rule in PUBLIC or "stop-instance" in r.rule or "load-state" in r.rule:
+                continue
+            for m in sorted(r.methods - {"OPTIONS", "HEAD"}):
+                try:
+                    send(srv, r.rule, m, u, "Bearer " + TOKEN)
+                except Exception:
+                    pass
+        return u
+    return [("every-route-served-once-to-an-authorised-client", served_once, False), ("no-instances", none, False), ("instance-without-session", no_session, False), ("live-session", live, True),
             ("locked-session", locked, False), ("externalised-swept-instance", externalised, True)]
 
 
